@@ -79,6 +79,7 @@ def _run(chk):
         c = gen(chk.rng, chk.tier)
         if linkgen.max_inrange(c['frames'], c['sr'], c['memory']) > 8:
             chk.tally('skipped: neighbour cap binding'); continue
+        c02.safe_strategy(c)
         v = np.array(c['v'], dtype=float)
 
         @predictor
